@@ -24,7 +24,10 @@ def unescape_string(value: str, token: Token, quote: str = '"') -> str:
 
 
 def _decode_escape_sequence(  # noqa: PLR0911, PLR0912
-    value: str, index: int, token: Token, quote: str
+    value: str,
+    index: int,
+    token: Token,
+    quote: str,  # noqa: ARG001
 ) -> tuple[str, int]:
     try:
         ch = value[index]
@@ -32,8 +35,9 @@ def _decode_escape_sequence(  # noqa: PLR0911, PLR0912
         raise PestGrammarSyntaxError("incomplete escape sequence", token=token) from err
 
     # TODO: match these to Rust?
-    if ch == quote:
-        return quote, index
+    if ch in ('"', "'"):
+        # Both quotes can be escaped in both string and character literals.
+        return ch, index
     if ch == "\\":
         return "\\", index
     if ch == "/":
